@@ -65,8 +65,13 @@ Definition currency_doc_wf (d : doc) : Prop :=
   d_currency_rule d = true /\
   Forall (fun l => item_wf (d_cur d) (d_c d) (ln_item l)) (d_lines d) /\
   (* fixed advance amounts are supplied at the currency's precision (the property's hypothesis) *)
-  Forall (fun r => pr_pct r = None -> (exp (pr_amount r) <= d_c d)%nat) (d_advances d) /\
-  oexp_ok (d_c d) (d_rounding d).
+  Forall (fun r => pr_pct r = None -> (exp (pr_amount r) <= d_c d)%nat) (d_advances d).
+  (* no clause on a supplied totals.rounding: it is presented at the currency's decimals whatever the
+     decimals it was written with (repair recorded in findings/C03.json) *)
+
+(* totals.rounding as presented: the supplied value rounded half away from zero to the currency *)
+Definition presented_rounding (d : doc) : option amount :=
+  match d_rounding d with Some r => Some (rescale r (d_c d)) | None => None end.
 
 Definition currency_identities (d : doc) (t : totals) : Prop :=
   let c := d_c d in
@@ -78,7 +83,8 @@ Definition currency_identities (d : doc) (t : totals) : Prop :=
   Forall (ct_readds c) (t_cats t) /\
   exp (t_taxsum t) = c /\ val (t_taxsum t) = signed_sum (t_cats t) /\ t_tax t = t_taxsum t /\
   exp (t_twt t) = c /\ val (t_twt t) = val (t_total t) + val (t_tax t) /\
-  exp (t_payable t) = c /\ val (t_payable t) = val (t_twt t) + oval (d_rounding d) /\
+  oexp_ok c (t_rounding t) /\
+  exp (t_payable t) = c /\ val (t_payable t) = val (t_twt t) + oval (t_rounding t) /\
   match t_advances t, t_due t with
   | Some a, Some du => exp a = c /\ exp du = c /\ val du = val (t_payable t) - val a /\ val a = sumv (t_adv_rows t)
   | None, None => True
